@@ -814,6 +814,34 @@ def loop_certificates(ctx, f, header, body):
                     leaves = pg.entry_of(header) not in reach or tgt_true not in body
             if leaves and every_cycle(lambda x: x in ins) and every_cycle(lambda x: x is c):
                 certs.append("SEEN-SET(%s)" % sset[-20:])
+    # SEEN-SET, the other idiom: `if !seen.insert(id) { refuse }` - insert answers false for an element already there
+    for c in calls:
+        if c.name.split("::")[-1] == "insert" and ("HashSet" in c.name or "hash::set" in c.name or "<T, S, A>" in c.name or "BTreeSet" in c.name) and c.term["args"] and not c.term["dest"]["proj"]:
+            sset = pr.operand(c.term["args"][0])
+            d = c.term["dest"]["local"]
+            leaves = False
+            for b in body:
+                t = f.blocks[b]["term"]
+                if t["t"] == "switch" and t["discr"]["k"] in ("copy", "move") and not t["discr"]["place"]["proj"]:
+                    dl = t["discr"]["place"]["local"]
+                    neg = False
+                    src = dl
+                    for st in f.blocks[b]["stmts"]:
+                        if st["s"] == "assign" and not st["place"]["proj"] and st["place"]["local"] == dl and st["rv"]["r"] == "unop" and st["rv"].get("op") == "Not" and op_local(st["rv"]["a"]) == d:
+                            neg, src = True, d
+                        elif st["s"] == "assign" and not st["place"]["proj"] and st["place"]["local"] == dl and st["rv"]["r"] == "use" and op_local(st["rv"]["op"]) == d:
+                            src = d
+                    if src != d:
+                        continue
+                    arms = dict((int(v_), tg_) for v_, tg_ in t["arms"])
+                    # the edge on which insert returned FALSE (the element was there already)
+                    tgt_dup = t["otherwise"] if neg else arms.get(0)
+                    if tgt_dup is None:
+                        continue
+                    reach = pg.reach([pg.entry_of(tgt_dup)])
+                    leaves = pg.entry_of(header) not in reach or tgt_dup not in body
+            if leaves and every_cycle(lambda x: x is c):
+                certs.append("SEEN-SET(%s)" % sset[-20:])
     # CHAIN-WALK / MARK-REFUSE / TRUSTED
     checked_next = tbl.get("checked_next", "Allocator::<F>::next$|MiniAllocator::<F>::next_mini_sector$")
     if every_cycle(lambda x: re.search(checked_next, x.name), ok_edge=True):
